@@ -3,6 +3,8 @@ package machine
 import (
 	"encoding/binary"
 	"hash/fnv"
+	"reflect"
+	"unsafe"
 	"verifmc/explore"
 )
 
@@ -103,4 +105,18 @@ func ProgramCart(cartType, ramCode uint8, chunks map[uint16][]byte) []byte {
 	img := Program(chunks)
 	img[0x147], img[0x148], img[0x149] = cartType, 0x00, ramCode
 	return img
+}
+
+// OAMBytes returns the object memory array of the real OAM (an unexported field, located by reflection once per
+// machine): reading it this way is not a bus access, so it can be observed after every machine cycle without
+// arming or triggering anything.
+func (m *M) OAMBytes() *[160]uint8 {
+	if m.oamBytes == nil {
+		f := reflect.ValueOf(m.OAM).Elem().FieldByName("oam")
+		if !f.IsValid() || f.Len() != 160 {
+			panic("machine: oam.OAM has no 160-byte field named oam")
+		}
+		m.oamBytes = (*[160]uint8)(unsafe.Pointer(f.UnsafeAddr()))
+	}
+	return m.oamBytes
 }
